@@ -10,7 +10,6 @@ import (
 	"time"
 
 	infracluster "github.com/WuKongIM/WuKongIM/internal/infra/cluster"
-	"github.com/WuKongIM/WuKongIM/internal/usecase/message"
 	"github.com/WuKongIM/WuKongIM/internal/verifsim/simkit"
 	ch "github.com/WuKongIM/WuKongIM/pkg/channel"
 	channelstore "github.com/WuKongIM/WuKongIM/pkg/channel/store"
@@ -110,6 +109,7 @@ type engine struct {
 	leaderChg  bool
 	readers    map[ch.NodeID]*infracluster.ChannelMessageReader
 	mgmt       map[ch.NodeID]mgmtNode
+	deferred   *pendingViolation
 }
 
 // mgmtNode is the management read surface (pkg/cluster.Node in production).
@@ -192,6 +192,10 @@ func (e *engine) run() {
 		StepTime: func() time.Duration { return time.Millisecond + skew },
 	}
 	sched.Run()
+	if !r.Failed() && e.deferred != nil {
+		d := e.deferred
+		r.FailSig(d.class, d.sig, d.detail, d.facts)
+	}
 	total := 0
 	for _, v := range r.Faults {
 		total += v
@@ -266,7 +270,7 @@ func (e *engine) observe() {
 			return
 		}
 		if s.leo > 0 {
-			res, err := st.ReadCommitted(context.Background(), channelstore.ReadCommittedRequest{FromSeq: 1, MaxSeq: s.leo, Limit: 1 << 20, MaxBytes: 1 << 30})
+			res, err := st.ReadCommitted(context.Background(), channelstore.ReadCommittedRequest{FromSeq: 1, MaxSeq: s.leo, Limit: int(s.leo) + 1, MaxBytes: 1 << 30})
 			if err != nil {
 				_ = st.Close()
 				r.Infra("observe: scan node %d: %v", id, err)
